@@ -186,7 +186,11 @@ func zeroWidthHazard(input []byte) bool {
 	if err != nil || h.Schema == nil {
 		return false
 	}
-	hazard := refavro.ZeroWidth(h.Schema)
+	return schemaZeroWidthHazard(h.Schema)
+}
+
+func schemaZeroWidthHazard(root *refavro.Schema) bool {
+	hazard := refavro.ZeroWidth(root)
 	var walk func(s *refavro.Schema)
 	walk = func(s *refavro.Schema) {
 		if s == nil {
@@ -204,7 +208,7 @@ func zeroWidthHazard(input []byte) bool {
 			walk(b)
 		}
 	}
-	walk(h.Schema)
+	walk(root)
 	return hazard
 }
 
